@@ -7,7 +7,7 @@
   "C03"
  ],
  "kind": "K2",
- "tier": "thorough",
+ "tier": "experimental",
  "timeout": 2400,
  "mem_gb": 30,
  "split": {
